@@ -212,6 +212,8 @@ pub struct StreamScript {
 #[derive(Clone, Copy, Debug, Hash, PartialEq, Eq, Serialize, Deserialize)]
 pub enum WStep {
     Send(u32),
+    /// the same through the `futures::io::AsyncWrite` interface (`write_all`)
+    Write(u32),
     PauseUs(u32),
     Flush,
 }
@@ -235,7 +237,7 @@ impl WriterScript {
     pub fn total(&self) -> u64 {
         self.steps
             .iter()
-            .map(|s| if let WStep::Send(n) = s { *n as u64 } else { 0 })
+            .map(|s| if let WStep::Send(n) | WStep::Write(n) = s { *n as u64 } else { 0 })
             .sum()
     }
 }
